@@ -102,6 +102,7 @@ func NewDB(conn *sql.DB, schema *Schema) *DB {
 
 			// Finally, match the returned rows against the queries.
 			matcher := newMatcher()
+			testers := make([]Tester, len(items))
 			for i, item := range items {
 				query := item.(*BaseSelectQuery)
 				// XXX: This needs more rigor, and a test. For now, call coerceMap on rows
@@ -109,12 +110,24 @@ func NewDB(conn *sql.DB, schema *Schema) *DB {
 				// the row tester does when matching against the binlog. This way, a filter
 				// specifying age=48 will match a value *age=48.
 				matcher.add(i, coerceMap(query.Filter))
+				// The matcher compares Go values, which is coarser than SQL in places (a
+				// pointer to "" equals the "" a NULL scans into, an empty []byte equals a
+				// nil one). The row tester compares what the columns serialize to; a row
+				// goes only to the queries whose filter it satisfies.
+				tester, err := db.Schema.MakeTester(table.Name, query.Filter)
+				if err != nil {
+					return nil, err
+				}
+				testers[i] = tester
 			}
 			results := make([][]interface{}, len(items))
 			for _, row := range rows {
 				f := coerceMap(table.extractRow(row))
 				for _, idx := range matcher.match(f) {
 					i := idx.(int)
+					if !testers[i].Test(row) {
+						continue
+					}
 					results[i] = append(results[i], row)
 				}
 			}
